@@ -30,6 +30,7 @@ type c09Lib struct {
 	id      int
 	feat    int
 	imports []int // ids of libraries this one imports
+	twinOf  int   // != 0: the file has exactly the statements of library twinOf (same constants); only a comment differs
 }
 
 func c09LibProg(l c09Lib) *Prog {
@@ -38,6 +39,9 @@ func c09LibProg(l c09Lib) *Prog {
 		p.Imports = append(p.Imports, Import{Alias: fmt.Sprintf("d%d", j), Path: fmt.Sprintf("l%d.tsh", j)})
 	}
 	id := l.id
+	if l.twinOf != 0 {
+		id = l.twinOf
+	}
 	if l.feat&fGlobal != 0 {
 		p.Stmts = append(p.Stmts, Define{Names: []string{"count"}, Form: DefShort, Vals: []Expr{lit(id * 11)}})
 	}
@@ -64,7 +68,10 @@ func c09LibProg(l c09Lib) *Prog {
 	}
 	if l.feat&fGlobal != 0 {
 		p.Stmts = append(p.Stmts, Print{Args: []Expr{StrLit{V: fmt.Sprintf("top%d", id)}, Var{"count"}}},
-			OpAssign{Name: "count", Op: "+", Val: lit(1)})
+			OpAssign{Name: "count", Op: "+", Val: lit(1)},
+			// the file's own global read and written inside blocks of its top-level code
+			If{Cond: Binary{Op: ">", L: Var{"count"}, R: lit(0)}, Then: []Stmt{OpAssign{Name: "count", Op: "+", Val: lit(2)}, Print{Args: []Expr{StrLit{V: fmt.Sprintf("blk%d", id)}, Var{"count"}}}}},
+			For{Init: Define{Names: []string{"bk"}, Form: DefShort, Vals: []Expr{lit(0)}}, Cond: Binary{Op: "<", L: Var{"bk"}, R: lit(2)}, Post: IncDec{Name: "bk", Inc: true}, Body: []Stmt{OpAssign{Name: "count", Op: "+", Val: Var{"bk"}}}})
 	}
 	if l.feat&fInit != 0 {
 		// boot is reachable only from this file's own top-level code
@@ -163,6 +170,10 @@ func c09Cases(thorough bool) []c09Case {
 	}
 	// a LOCAL file named like a standard library script, next to the real std import
 	out = append(out, c09Case{name: "local strings.tsh next to std strings", localStd: true, libs: []c09Lib{{id: 1, feat: fPriv}}, mainImp: [][2]string{{"a1", "l1.tsh"}}, std: true})
+	// twins: two files with the same statements (only a comment differs), each with its own state
+	for _, f := range []int{fGlobal | fUseGlob, fUnder, fUnder | fPriv | fGlobal | fInit | fUseGlob} {
+		out = append(out, c09Case{name: fmt.Sprintf("main->L1, main->L2 (same statements as L1) feat=%d", f), libs: []c09Lib{{id: 1, feat: f}, {id: 2, feat: f, twinOf: 1}}, mainImp: [][2]string{{"a1", "l1.tsh"}, {"a2", "l2.tsh"}}})
+	}
 	// two libraries: every edge set {main->L1, main->L2, L1->L2} in which every library is reachable
 	for _, f1 := range feats {
 		for _, f2 := range feats {
@@ -319,6 +330,9 @@ func C09() int {
 			p := c09LibProg(l)
 			progs[name] = p
 			files[name] = withNonce(PrintProg(*p), c.nonce[l.id])
+			if l.twinOf != 0 {
+				files[name] = fmt.Sprintf("// the same statements as l%d.tsh, another file\n", l.twinOf) + files[name]
+			}
 			h := sha256.Sum256([]byte(files[name]))
 			cls := "letter"
 			if d := fmt.Sprintf("%x", h[:1])[0]; d >= '0' && d <= '9' {
@@ -353,6 +367,11 @@ func C09() int {
 		loader := func(from, path string) (string, *Prog) { return path, progs[path] }
 		in := &Interp{Width: 64, Loader: loader}
 		want := in.Run(&modelMain)
+		wantIfRerun := ""
+		if c09ReachedTwice(c) {
+			// what the listed defect (a file reached twice runs its top-level code twice) would print
+			wantIfRerun = (&Interp{Width: 64, Loader: loader, RerunImports: true}).Run(&modelMain).Stdout
+		}
 		src := PrintProg(*main)
 		files["main.tsh"] = src
 		all := src
@@ -480,7 +499,7 @@ func C09() int {
 			panic("HARNESS ERROR: c09 replay differs for " + c.name)
 		}
 		key := "case=" + c.name + " symptom=" + sym
-		r.Fail(c09KnownKey(c, sym, want.Stdout, got, key), fmt.Sprintf("import graph %s: %s (%s)", c.name, sym, detail), func() findings.Replay {
+		r.Fail(c09KnownKey(c, sym, want.Stdout, wantIfRerun, got, key), fmt.Sprintf("import graph %s: %s (%s)", c.name, sym, detail), func() findings.Replay {
 			fs := map[string]string{"expected.txt": want.Stdout + fmt.Sprintf("exit=%d\n", want.Exit), "actual.txt": got.Stdout + fmt.Sprintf("exit=%d\n", got.Exit), "stderr.txt": got.Stderr, "script.sh": tr.Script}
 			for k, v := range files {
 				fs["src/"+k] = v
@@ -527,10 +546,10 @@ func c09ReachedTwice(c c09Case) bool {
 	return false
 }
 
-func c09KnownKey(c c09Case, sym, want string, got drive.RunResult, exact string) string {
+func c09KnownKey(c c09Case, sym, want, wantIfRerun string, got drive.RunResult, exact string) string {
 	twice := c09ReachedTwice(c)
 	diamond := twice
-	if (twice || diamond) && sym == "stdout-diff" && c09OnlyDuplicatedTopLevel(want, got.Stdout) {
+	if (twice || diamond) && sym == "stdout-diff" && (c09OnlyDuplicatedTopLevel(want, got.Stdout) || got.Stdout == wantIfRerun) {
 		return "region=file-reached-twice-runs-its-top-level-code-twice symptom=stdout-diff"
 	}
 	if (twice || diamond) && sym == "static" {
